@@ -135,8 +135,14 @@ impl<T: Read + Seek> ClassRead for T {
         Ok(buf)
     }
     fn read_u8_vec(&mut self, size: usize) -> Result<Vec<u8>> {
-        let mut vec = std::vec::from_elem(0, size);
-        self.read_exact(&mut vec)?;
+        // Don't allocate `size` bytes up front: `size` comes from the (untrusted) input, and may be up to 4 GiB
+        // for an attribute of a file that is only a few bytes long. Reading through `take` grows the vector
+        // only as far as there is data.
+        let mut vec = Vec::new();
+        self.by_ref().take(size as u64).read_to_end(&mut vec)?;
+        if vec.len() != size {
+            bail!("unexpected end of input: expected {size} bytes, got only {}", vec.len());
+        }
         Ok(vec)
     }
 }
